@@ -544,8 +544,15 @@ impl<'a> Gen<'a> {
             if self.r.chance(1, 3) {
                 let now_s = self.run.h.w.now_ns() / 1_000_000_000;
                 if e > now_s {
-                    let target = match self.r.below(3) { 0 => e - 1, 1 => e, _ => e + 1 };
-                    if target > now_s { self.emit(format!("advance {}", (target - now_s) * 1_000_000_000)); }
+                    // the unlock instant to the second, and INSIDE the last second before it (block times carry nanoseconds:
+                    // a fraction of a second before the instant is still before it)
+                    let now_ns = self.run.h.w.now_ns();
+                    let target_ns = match self.r.below(6) {
+                        0 => (e - 1) * 1_000_000_000, 1 => e * 1_000_000_000, 2 => (e + 1) * 1_000_000_000,
+                        3 => (e - 1) * 1_000_000_000 + 1, 4 => (e - 1) * 1_000_000_000 + 999_999_999,
+                        _ => (e - 1) * 1_000_000_000 + 1 + self.r.below(999_999_998),
+                    };
+                    if target_ns > now_ns { self.emit(format!("advance {}", target_ns - now_ns)); }
                 }
             }
         }
@@ -580,6 +587,9 @@ impl<'a> Gen<'a> {
         let end = match self.r.below(4) { 0 => "-".to_string(), _ => (s_num + 1 + self.r.below(20)).to_string() };
         let ad = match self.r.below(8) { 0 => lp.clone(), 1 | 2 => "uom".to_string(), 3 => "uusd".to_string(), _ => BASE_DENOMS[self.r.below(6) as usize].to_string() };
         let aa = match self.r.below(5) { 0 => 999, 1 => 1000, _ => 1000 + self.r.below(10_000_000) as u128 };
+        // budgets of 18-decimals reward tokens: an emission of 10^18 … 10^27 units per epoch makes any loss of relative
+        // precision in the per-epoch share (an 18-digit intermediate, say) visible in whole units
+        let aa = if self.r.chance(1, 7) { 10u128.pow(19 + self.r.below(9) as u32) * (1 + self.r.below(1000) as u128) + self.r.below(1000) as u128 } else { aa };
         // long farms with a small budget: the emission rate's rounding remainder exceeds one epoch's emission
         let (end, aa) = if self.r.chance(1, 6) {
             let d = 32 + self.r.below(40);
